@@ -70,9 +70,11 @@ def mc_expander(ctx, casefile, cont, skip, label, liveness=True):
 
 
 class Batch:
-    def __init__(self, genset, layouts, opts, rots, failsets=('none',), reps=2, names='plain', spell='simple', entry='ExpandSpec'):
+    def __init__(self, genset, layouts, opts, rots, failsets=('none',), reps=2, names='plain', spell='simple', entry='ExpandSpec',
+                 caches='none'):
         self.genset, self.layouts, self.opts, self.rots = genset, layouts, opts, rots
         self.failsets, self.reps, self.names, self.spell, self.entry = failsets, reps, names, spell, entry
+        self.caches = caches
 
 
 def observe(ctx, batches):
@@ -82,7 +84,7 @@ def observe(ctx, batches):
         cases = gen(ctx, *b.genset)
         args = ['-layouts', ','.join(b.layouts), '-opts', ','.join(b.opts), '-rots', ','.join(str(r) for r in b.rots),
                 '-names', b.names, '-spell', b.spell, '-reps', str(b.reps), '-failsets', ','.join(b.failsets),
-                '-entry', b.entry]
+                '-entry', b.entry, '-caches', b.caches]
         obsfiles += vlib.run_worker(ctx, 'expander', cases, args, prefix='exp%d' % i)
     return obsfiles
 
@@ -98,7 +100,9 @@ def brief(o, v):
 
 
 def replay_obj(o, v):
-    return {'family': 'expander', 'abstract': o['abstract'], 'layout': o['layout'], 'rot': o['rot'], 'opts': o['opts'],
+    return {'family': 'expander', 'case': o['case'], 'names': o.get('names'), 'spell': o.get('spell'), 'reps': o.get('reps'),
+            'cache': o.get('cache'), 'elem': o.get('elem'),
+            'abstract': o['abstract'], 'layout': o['layout'], 'rot': o['rot'], 'opts': o['opts'],
             'entry': o['entry'], 'failurl': o['failurl'], 'preload': o['preload'], 'docurls': o['docurls'],
             'concrete': o['concrete'], 'outcome': o['outcome'], 'err': o['err'], 'detail': o.get('detail', ''),
             'verdict': v}
@@ -114,7 +118,7 @@ def seeded(ctx):
     return {'rot': s % 12, 'names': 'special' if s % 2 == 0 else 'plain', 'spell': 'varied' if s % 3 == 0 else 'simple'}
 
 
-def run_batches(ctx, batches, preds, mc_runs, nontrivial=lambda o, v: True, sample=lambda o, v: v.get('cyclic')):
+def run_batches(ctx, batches, preds, mc_runs, nontrivial=lambda o, v: True, sample=lambda o, v: v.get('cyclic'), post=None):
     vlib.build_worker(ctx)
     for (genset, cont, skip, label) in mc_runs:
         mc_expander(ctx, gen(ctx, *genset), cont, skip, label)
@@ -135,8 +139,11 @@ def run_batches(ctx, batches, preds, mc_runs, nontrivial=lambda o, v: True, samp
             if v[p] == 'fail':
                 rep.fail(p, replay_obj(o, v), v.get('kf', []), brief(o, v))
         if len(rep.samples) < 3 and sample(o, v):
-            rep.samples.append({'abstract': o['abstract'], 'layout': o['layout'], 'opts': o['opts'], 'documents': o['concrete'],
+            rep.samples.append({'abstract': o['abstract'], 'layout': o['layout'], 'opts': o['opts'], 'entry': o['entry'],
+                                'cache': o.get('cache'), 'elem': o.get('elem'), 'loads': o.get('loadss'), 'documents': o['concrete'],
                                 'events': o.get('events', [])[:12], 'verdict': {p: v[p] for p in preds}})
+    if post:
+        post(rep, pairs)
     rep.counts['operational_drift'] = drift
     if drift:
         log('[drift] %d observations whose event trace is not a behaviour of Expander.tla (not a violation by itself)' % drift)
@@ -260,8 +267,143 @@ def check_c08(ctx):
         ASSUME)
 
 
-def check_c18_basic(ctx):
-    raise NotImplementedError
+def check_c09(ctx):
+    sd = seeded(ctx)
+    preds = ['c09keep', 'c09defs', 'c09form', 'c02', 'c09then', 'c03cut']
+    if ctx.tier == 'thorough':
+        batches = [Batch(G_N3_D3_WF, [a + '+' + b for a in ALL_LAYOUTS for b in ('sibling', 'parent')], ['100', '101'],
+                         [sd['rot'], (sd['rot'] + 6) % 12], reps=2, names=sd['names'], spell=sd['spell']),
+                   Batch(G_N4_SP_WF, ALL_LAYOUTS, ['100'], [sd['rot']], reps=1, names='special', spell='varied'),
+                   Batch(G_N4_SR_WF, ALL_LAYOUTS, ['100'], [sd['rot']], reps=1),
+                   Batch(G_N3_D3_WF, ['sibling+subdir', 'parent+otherdir', 'remote+prefixdir'], ['000'], [sd['rot']], reps=1,
+                         entry='SkipThenFull'),
+                   Batch(G_N4_SP_WF, ORDINARY, ['000'], [sd['rot']], reps=1, entry='SkipThenFull')]
+        mcs = [(G_N3_D3_WF, False, True, 'N3D3_strict_skip'), (G_N4_SP_WF, False, True, 'N4SP_strict_skip')]
+    else:
+        batches = [Batch(G_N3_ALL_WF, ALL_LAYOUTS, ['100', '101'], [sd['rot']], reps=1, names=sd['names'], spell=sd['spell']),
+                   Batch(G_N3_ALL_WF, ALL_LAYOUTS, ['000'], [sd['rot']], reps=1, names=sd['names'], spell=sd['spell'],
+                         entry='SkipThenFull')]
+        mcs = [(G_N3_ALL_WF, False, True, 'N3_strict_skip')]
+    rep = run_batches(ctx, batches, preds, mcs,
+                      nontrivial=lambda o, v: v['wf'] and any(n['kind'] != 's' for n in o['abstract']),
+                      sample=lambda o, v: o['opts']['skip'] and any(n['kind'] != 's' and n['t'] == 'ref' for n in o['abstract']))
+    return rep.finish(
+        'model_checking',
+        'The C02 enumeration (all element kinds, N<=3 nodes, 2-3 documents; N<=4 with parameters / responses) run with '
+        'SkipSchemas in every layout class; predicates (ExpOracle.tla): Keeps - parameters, responses, path items are '
+        'dereferenced, every schema $ref is still a $ref and designates, read from the root location, the node it designated '
+        'before; definitions byte-equal (as JSON values) to the input; refs into the root fragment-only; bisimilarity; '
+        'SkipThenFull - a real full expansion of the real skip-mode result is bisimilar to the input, cut only on cycles and, '
+        'for acyclic graphs, JSON-equal to the direct full expansion. Model level: C09_NoSchemaFollow on Expander.tla with Skip.',
+        ASSUME)
 
 
-CHECKS = {'C02': check_c02, 'C03': check_c03, 'C04': check_c04, 'C08': check_c08}
+ELEMENT_ENTRIES_CWD = 'ExpandSchema:typed,ExpandSchema:generic,ExpandParameterWithRoot,ExpandResponseWithRoot'
+ELEMENT_ENTRIES_BASE = 'ExpandSchemaWithBasePath,ExpandParameter,ExpandResponse'
+
+
+def check_c10(ctx):
+    sd = seeded(ctx)
+    preds = ['c02', 'c03cut', 'c03free', 'c03form', 'c10root', 'c10opts', 'c04', 'c08noerr']
+    if ctx.tier == 'thorough':
+        lay2 = [a + '+' + b for a in ALL_LAYOUTS for b in ('sibling', 'subdir')]
+        batches = [Batch(G_N3_D3_WF, lay2, ['000'], [sd['rot']], reps=2, entry=ELEMENT_ENTRIES_CWD, names=sd['names'], spell=sd['spell']),
+                   Batch(G_N3_D3_WF, lay2, ['000', '001'], [sd['rot']], reps=2, entry=ELEMENT_ENTRIES_BASE, names=sd['names'], spell=sd['spell']),
+                   Batch(G_N4_S_WF, ALL_LAYOUTS, ['000'], [(sd['rot'] + 3) % 12], reps=2, entry='ExpandSchema:typed,ExpandSchema:generic,ExpandSchemaWithBasePath'),
+                   Batch(G_N4_SP_WF, ORDINARY, ['000'], [sd['rot']], reps=1, entry='ExpandParameterWithRoot,ExpandParameter'),
+                   Batch(G_N4_SR_WF, ORDINARY, ['000'], [sd['rot']], reps=1, entry='ExpandResponseWithRoot,ExpandResponse')]
+        mcs = [(G_N3_D3_WF, False, False, 'N3D3_strict_full'), (G_N4_S_WF, False, False, 'N4S_strict_full')]
+    else:
+        batches = [Batch(G_N3_ALL_WF, ALL_LAYOUTS, ['000'], [sd['rot']], reps=2, entry=ELEMENT_ENTRIES_CWD, names=sd['names'], spell=sd['spell']),
+                   Batch(G_N3_ALL_WF, ALL_LAYOUTS, ['000', '001'], [sd['rot']], reps=2, entry=ELEMENT_ENTRIES_BASE, names=sd['names'], spell=sd['spell'])]
+        mcs = [(G_N3_ALL_WF, False, False, 'N3_strict_full')]
+    rep = run_batches(ctx, batches, preds, mcs, nontrivial=lambda o, v: v['wf'] and o['outcome'] == 'ok')
+    return rep.finish(
+        'model_checking',
+        'Every referable element (definition / parameter / response) of every enumerated root is expanded through every '
+        'single-element entry point: ExpandSchema with typed and with generic root, ExpandSchemaWithBasePath (root reached '
+        'through its location), ExpandParameterWithRoot / ExpandResponseWithRoot, ExpandParameter / ExpandResponse (base path; '
+        'package PathLoader swapped for the recording loader). The result, placed at the element\'s own pointer in a document '
+        'at the root location, must be bisimilar to the element in the input graph (kept refs resolve against the same root), '
+        'be cut only on cycles, and the root document and the caller\'s ExpandOptions must be unchanged (JSON / field equality '
+        'before and after). In-memory-root entries run in a private working directory shaped like the layouts.',
+        ASSUME)
+
+
+def check_c18(ctx):
+    sd = seeded(ctx)
+    preds = ['c18once', 'c18key', 'c18never', 'c18step', 'c02', 'c03cut']
+    caches = 'none,fresh,reuse,preload:0,preload:1,preload:0+1'
+    if ctx.tier == 'thorough':
+        caches += ',preload:2,preload:1+2,preload:0+1+2'
+        batches = [Batch(G_N3_D3_WF, [a + '+' + b for a in ALL_LAYOUTS for b in ('sibling', 'subdir')], ['000'], [sd['rot']], reps=1,
+                         entry='ExpandSchemaWithBasePath', names=sd['names'], spell=sd['spell']),
+                   Batch(G_N4_S_WF, ALL_LAYOUTS, ['000'], [sd['rot']], reps=1, entry='ExpandSchemaWithBasePath,ExpandSchema:typed'),
+                   Batch(G_N3_D3_WF, ['sibling+parent', 'remote+otherdir'], ['000', '001', '010'], [sd['rot']], reps=1)]
+        mcs = [(G_N3_D3_WF, False, False, 'N3D3_strict_full'), (G_N4_S_WF, False, False, 'N4S_strict_full')]
+    else:
+        batches = [Batch(G_N3_ALL_WF, ALL_LAYOUTS, ['000'], [sd['rot']], reps=1, entry='ExpandSchemaWithBasePath,ExpandSchema:typed',
+                         names=sd['names'], spell=sd['spell']),
+                   Batch(G_N3_ALL_WF, ORDINARY, ['000'], [sd['rot']], reps=1)]
+        mcs = [(G_N3_ALL_WF, False, False, 'N3_strict_full')]
+    for b in batches:
+        if b.entry != 'ExpandSpec':
+            b.caches = caches
+    rep = run_batches(ctx, batches, preds, mcs, nontrivial=lambda o, v: len(o['docurls']) > 1,
+                      sample=lambda o, v: o.get('cache') in ('reuse', 'preload') and len(o['loadss']) > 0,
+                      post=c18_transparency)
+    return rep.finish(
+        'model_checking',
+        'Every enumerated multi-document graph; every definition expanded by ExpandSchemaWithBasePath / ExpandSchema with: no '
+        'cache, a fresh caller cache, a cache pre-loaded with every subset of the documents, one cache reused across the '
+        'sequence of expansions of all definitions of the root; plus whole-spec expansions. Predicates: no delivered document is '
+        'requested twice (loader log), no request carries a fragment, a document present in the supplied cache (pre-loaded or '
+        'loaded by an earlier call of the sequence) is never requested, the hook trace never shows a miss on a stored document '
+        '(ExpTrace.tla), every result is bisimilar to the input and, for acyclic graphs, byte-identical across all cache modes '
+        '(transparency). Model level: C18_AtMostOnce on Expander.tla.',
+        ASSUME)
+
+
+def c18_transparency(rep, pairs):
+    """acyclic graphs: the output bytes must not depend on the cache mode"""
+    groups = {}
+    for o, v in pairs:
+        if o['outcome'] != 'ok' or v['cyclic'] or not v['wf'] or not o.get('elem'):
+            continue
+        k = json.dumps([o['abstract'], o['layout'], o['rot'], o['opts'], o['entry'], o['elem']], sort_keys=True)
+        groups.setdefault(k, []).append((o, v))
+    n = 0
+    for k, lst in groups.items():
+        outs = set(o['concrete'][-1] for o, v in lst)
+        n += 1
+        if len(outs) > 1:
+            o, v = lst[0]
+            rep.fail('c18transparent', replay_obj(o, v), v.get('kf', []), 'outputs differ across cache modes: ' + brief(o, v))
+    rep.counts['c18transparent:groups'] = n
+
+
+def replay(ctx, rec):
+    """Re-run one recorded case through worker and oracle; prints the fresh verdict."""
+    c = rec['case']
+    vlib.build_worker(ctx)
+    case = {'case': c.get('case', 1), 'nodes': c['abstract'], 'layout': c['layout'], 'rot': c['rot'], 'opts': c['opts'],
+            'entry': c['entry'] or 'ExpandSpec', 'reps': c.get('reps') or 2, 'failurl': c['failurl'], 'preload': c['preload'],
+            'names': c.get('names') or 'plain', 'spell': c.get('spell') or 'simple', 'cache': c.get('cache') or 'none'}
+    f = ctx.path('replay_case.ndjson')
+    open(f, 'w').write(json.dumps(case) + '\n')
+    obsfiles = vlib.run_worker(ctx, 'expander', f, ['-entry', case['entry']], shards=1, prefix='replay')
+    pairs = judge(ctx, obsfiles)
+    pred = rec['predicate']
+    bad = 0
+    for o, v in pairs:
+        if c.get('elem') and o.get('elem') != c.get('elem'):
+            continue
+        print(json.dumps({'outcome': o['outcome'], 'err': o['err'], 'documents': o['concrete'], 'verdict': v}, indent=1))
+        if v.get(pred) == 'fail':
+            bad += 1
+    print('REPRODUCED' if bad else 'NOT-REPRODUCED', 'predicate=%s' % pred)
+    return 1 if bad else 0
+
+
+CHECKS = {'C02': check_c02, 'C03': check_c03, 'C04': check_c04, 'C08': check_c08, 'C09': check_c09, 'C10': check_c10,
+          'C18': check_c18}
